@@ -144,6 +144,9 @@ type tok struct {
 
 type printer struct {
 	all  bool // all parentheses explicit
+	// rawEmpty: do not parenthesise `[]` before an index/slice (never set by the
+	// generator; a replay file may set it to reproduce finding F-empty-list-index)
+	rawEmpty bool
 	toks []tok
 	// statistics, filled by the minimal printer
 	pairs       []string // parent>child:side for every operator child at an operand position
@@ -296,7 +299,7 @@ func (p *printer) expr(n *Node) {
 			}
 		}
 		if (n.K == "idx" || n.K == "sl") && b.K == "list" && len(b.A) == 0 {
-			forced = true
+			forced = !p.rawEmpty
 			if !p.all {
 				p.forcedEmpty++
 			}
